@@ -38,6 +38,7 @@ var (
 	flagOwn     = flag.String("vsim.own", "", "comma-separated property ids whose violations stop the worker (default: all)")
 	flagKnown   = flag.String("vsim.known", "", "comma-separated PROP:class pairs that are recorded known findings")
 	flagWatchdog = flag.Duration("vsim.watchdog", 120*time.Second, "wall-clock limit for one run")
+	flagMutants  = flag.Int("vsim.mutants", 0, "neighbourhood search: base energy (mutated re-runs per seed; more for seeds that reach rare probes)")
 )
 
 var vsimProgress atomic.Int64
@@ -244,6 +245,11 @@ func TestVsim(t *testing.T) {
 		}
 		vsimProgress.Add(1)
 		runParams := copyParams(params)
+		if _, given := runParams["sched_mode"]; !given && twins[*flagProp].variants == nil && twoPass[*flagProp] == nil && schedModeOf(seed) == 1 {
+			// the schedule family is a function of the seed and travels with the run as a parameter (replay files
+			// recorded before the priority schedule existed have none: random walk)
+			runParams["sched_mode"] = 1
+		}
 		if derive := twoPass[*flagProp]; derive != nil {
 			if _, given := runParams["crash_kind"]; !given {
 				cryptotest.SetGlobalRandom(t, seed)
@@ -326,10 +332,14 @@ func TestVsim(t *testing.T) {
 			}
 		}
 		cryptotest.SetGlobalRandom(t, seed)
-		res := execRun(t, *flagProp, sc, runOpts{seed: seed, prop: *flagProp, verbose: *flagVerbose, debugLog: *flagDebug, keepTapes: *flagTapes, params: copyParams(runParams)})
+		res := execRun(t, *flagProp, sc, runOpts{seed: seed, prop: *flagProp, verbose: *flagVerbose, debugLog: *flagDebug, keepTapes: *flagTapes || *flagMutants > 0, params: copyParams(runParams)})
 		res.Params = runParams
 		if !*flagTapes && res.Violation == nil {
 			res.Config = nil
+		}
+		baseTapes := res.Tapes
+		if !*flagTapes && res.Violation == nil {
+			res.Tapes = nil
 		}
 		if res.Violation != nil && res.Tapes == nil {
 			// re-run is not needed: ask for tapes up front when a violation is found
@@ -353,6 +363,17 @@ func TestVsim(t *testing.T) {
 		}
 		if res.Violation != nil && *flagStop && ownsViolation(res.Violation.Prop) {
 			break
+		}
+		if *flagMutants > 0 && res.Violation == nil && res.Aborted == "" && res.Leak == "" && twins[*flagProp].variants == nil && twoPass[*flagProp] == nil {
+			if bad, leak := mutantRuns(t, enc, sc, seed, res, baseTapes, runParams, start); bad || leak {
+				if leak {
+					if f, ok := out.(*os.File); ok {
+						_ = f.Sync()
+					}
+					os.Exit(4)
+				}
+				break
+			}
 		}
 		if res.Leak != "" {
 			// goroutines of this run are still blocked in its (dead) bubble; they must never meet
@@ -418,4 +439,164 @@ type replayFile struct {
 	Tapes    map[string][]uint32 `json:"tapes"`
 	Config   *runConfig          `json:"config,omitempty"`
 	Trace    []string            `json:"trace,omitempty"`
+}
+
+// ---------------------------------------------------------------- neighbourhood search (mutated tapes)
+
+// Energy is a function of the run itself (so that the mutants explored for a seed do not depend on what the worker
+// process ran before): a base run gets -vsim.mutants re-runs, more if it met a recorded known finding (those sit next
+// to the states in which the repaired defects of the same families lived); a mutant that reaches a probe or a known
+// class its parent did not reach becomes a parent itself (at most two more generations).
+func freshOver(r *runResult, probes, known map[string]int) (n int) {
+	for k := range r.Probes {
+		if probes[k] == 0 {
+			n++
+		}
+	}
+	for k := range r.Known {
+		if known[k] == 0 {
+			n += 2
+		}
+	}
+	return n
+}
+
+// mutable tapes: decisions of the environment (schedule, network, adversary); configuration and workload stay fixed
+var mutableTapes = []string{"net.AB", "net.BA", "sched", "selorder", "maporder", "adversary"}
+
+// mutateTapes returns a copy of the tapes with one to three decisions changed: a decision that was taken (non-zero)
+// is withdrawn, one that was not taken is taken (value 1..3). The choice is a pure function of (seed, serial).
+func mutateTapes(base map[string][]uint32, seed uint64, serial int) (map[string][]uint32, string) {
+	rng := vsimNewTape(fmt.Sprintf("mutate.%d", serial), seed)
+	out := map[string][]uint32{}
+	for k, v := range base {
+		out[k] = append([]uint32(nil), v...)
+	}
+	k := 1
+	switch rng.next() % 10 {
+	case 5, 6, 7:
+		k = 2
+	case 8, 9:
+		k = 3
+	}
+	desc := ""
+	for i := 0; i < k; i++ {
+		var name string
+		switch r := rng.next() % 20; {
+		case r < 5:
+			name = "net.AB"
+		case r < 10:
+			name = "net.BA"
+		case r < 16:
+			name = "sched"
+		default:
+			name = mutableTapes[3+int(rng.next()%3)]
+		}
+		tp := out[name]
+		if len(tp) == 0 {
+			continue
+		}
+		pos := int(rng.next() % uint64(len(tp)))
+		if rng.next()%3 == 0 {
+			// prefer a decision that was taken in the base run (they are few): withdraw or move it
+			var taken []int
+			for j, v := range tp {
+				if v != 0 {
+					taken = append(taken, j)
+				}
+			}
+			if len(taken) > 0 {
+				pos = taken[int(rng.next()%uint64(len(taken)))]
+			}
+		}
+		if tp[pos] != 0 {
+			tp[pos] = 0
+		} else {
+			tp[pos] = 1 + uint32(rng.next()%3)
+		}
+		desc += fmt.Sprintf("%s[%d]=%d ", name, pos, tp[pos])
+	}
+	return out, desc
+}
+
+// mutantRuns re-runs a seed with mutated decision tapes. Returns bad (an owned violation was reported: stop) and leak.
+func mutantRuns(t *testing.T, enc *json.Encoder, sc scenario, seed uint64, base *runResult, baseTapes map[string][]uint32, params map[string]int, start time.Time) (bad, leak bool) {
+	if baseTapes == nil {
+		return false, false
+	}
+	type job struct {
+		tapes  map[string][]uint32
+		probes map[string]int
+		known  map[string]int
+		energy int
+		gen    int
+	}
+	energy := *flagMutants * (1 + 2*len(base.Known))
+	if energy > 8**flagMutants {
+		energy = 8 * *flagMutants
+	}
+	queue := []job{{baseTapes, base.Probes, base.Known, energy, 0}}
+	serial := 0
+	for len(queue) > 0 {
+		j := queue[0]
+		queue = queue[1:]
+		for e := 0; e < j.energy; e++ {
+			if *flagBudget > 0 && time.Since(start) > *flagBudget {
+				return false, false
+			}
+			serial++
+			vsimProgress.Add(1)
+			mt, desc := mutateTapes(j.tapes, seed, serial)
+			cryptotest.SetGlobalRandom(t, seed)
+			r := runOne(t, sc, runOpts{seed: seed, prop: *flagProp, replay: mt, keepTapes: true, params: copyParams(params)})
+			r.Params = params
+			if r.Extra == nil {
+				r.Extra = map[string]any{}
+			}
+			r.Extra["mutant"] = 1
+			r.Notes = append(r.Notes, fmt.Sprintf("mutant %d (generation %d) of seed %d: %s", serial, j.gen+1, seed, desc))
+			consumed := r.Tapes
+			if r.Violation != nil {
+				// the consumed tapes are the replay; they must reproduce the verdict
+				cryptotest.SetGlobalRandom(t, seed)
+				r2 := runOne(t, sc, runOpts{seed: seed, prop: *flagProp, replay: consumed, keepTapes: true, params: copyParams(params)})
+				if r2.Violation == nil || r2.Hash != r.Hash {
+					r.Notes = append(r.Notes, fmt.Sprintf("NONDETERMINISM on re-run of a mutant: hash %s vs %s, violation %v", r.Hash, r2.Hash, r2.Violation))
+					r.Aborted = "nondeterminism: re-run of the violating mutant differs"
+				}
+				r.Config = r2.Config
+			} else {
+				r.Tapes, r.Config = nil, nil
+			}
+			_ = enc.Encode(r)
+			if r.Leak != "" {
+				return false, true
+			}
+			if r.Violation != nil && *flagStop && ownsViolation(r.Violation.Prop) {
+				return true, false
+			}
+			if r.Violation == nil && r.Aborted == "" && j.gen < 2 {
+				if fresh := freshOver(r, j.probes, j.known); fresh > 0 {
+					en := *flagMutants * fresh
+					if en > 4**flagMutants {
+						en = 4 * *flagMutants
+					}
+					queue = append(queue, job{consumed, r.Probes, r.Known, en, j.gen + 1})
+				}
+			}
+		}
+	}
+	return false, false
+}
+
+// schedModeOf: one run in four uses the priority schedule (see vsimSim.prioMode).
+func schedModeOf(seed uint64) int {
+	z := seed*0x9e3779b97f4a7c15 + 0x7f4a7c15
+	z = (z ^ (z >> 30)) * 0xbf58476d1ce4e5b9
+	z = (z ^ (z >> 27)) * 0x94d049bb133111eb
+	z ^= z >> 31
+	if z%4 == 0 {
+		return 1
+	}
+	return 0
 }
